@@ -15,6 +15,9 @@ pub struct Ctl {
     pub seen: usize,
     pub failures: usize,
     pub log: Vec<String>,
+    /// called (once) when a mutating operation touches a path containing `callback_path`
+    pub callback_path: String,
+    pub callback: Option<Arc<dyn Fn() + Send + Sync>>,
 }
 
 #[derive(Clone)]
@@ -34,6 +37,11 @@ impl FaultFs {
         c.sticky = sticky;
         c.seen = 0;
     }
+    pub fn on_touch(&self, path_contains: &str, cb: Arc<dyn Fn() + Send + Sync>) {
+        let mut c = self.ctl.lock().unwrap();
+        c.callback_path = path_contains.to_string();
+        c.callback = Some(cb);
+    }
     pub fn disarm(&self) {
         self.ctl.lock().unwrap().fail_at = 0;
     }
@@ -43,8 +51,19 @@ impl FaultFs {
 }
 
 fn gate(ctl: &Arc<Mutex<Ctl>>, op: &str, path: &Path) -> Result<()> {
-    let mut c = ctl.lock().unwrap();
     let p = path.to_string_lossy().to_string();
+    let cb = {
+        let mut c = ctl.lock().unwrap();
+        if c.callback.is_some() && !c.callback_path.is_empty() && p.contains(&c.callback_path) && op != "create" {
+            c.callback.take()
+        } else {
+            None
+        }
+    };
+    if let Some(cb) = cb {
+        cb();
+    }
+    let mut c = ctl.lock().unwrap();
     c.log.push(format!("{} {}", op, p));
     if c.fail_at == 0 || !p.contains(&c.path_contains) {
         return Ok(());
